@@ -264,8 +264,10 @@ func directedScenarios() []directedT {
 		},
 		{ // quit while thousands of search infos are backlogged because the GUI reads slowly
 			name: "quit-with-backlog",
-			steps: []stepT{{Kind: "cmd", Arg: "position startpos"}, {Kind: "auto", D: 6000}, {Kind: "cmd", Arg: "go infinite"},
-				{Kind: "stall", D: 400}, {Kind: "rawcmd", Arg: "quit"}},
+			steps: []stepT{{Kind: "cmd", Arg: "position startpos"}, {Kind: "auto", D: 400000}, {Kind: "cmd", Arg: "go infinite"},
+				// 100 lines fill the output channel, 400 infos the ponder channel, one is in the loop's hand and the
+				// forwarder is blocked sending the next one
+				{Kind: "stall-until", Arg: "uci.fwd.pv", K: 502, D: 4000}, {Kind: "rawcmd", Arg: "quit"}},
 		},
 		{ // quit while a completion is on its way
 			name: "quit-during-completion",
@@ -312,6 +314,23 @@ func directedScenarios() []directedT {
 	}
 }
 
+// the backlog scenario depends on which ready case the loop's select picks when quit arrives: repeat it
+func directedAll() []directedT {
+	ds := directedScenarios()
+	var ret []directedT
+	for _, d := range ds {
+		ret = append(ret, d)
+		if d.name == "quit-with-backlog" {
+			for i := 2; i <= 4; i++ {
+				c := d
+				c.name = fmt.Sprintf("%v-%d", d.name, i)
+				ret = append(ret, c)
+			}
+		}
+	}
+	return ret
+}
+
 func ucisched(args []string) {
 	fs := flag.NewFlagSet("ucisched", flag.ExitOnError)
 	seed := fs.Int64("seed", 1, "seed")
@@ -332,6 +351,7 @@ func ucisched(args []string) {
 	run := func(name string, steps []stepT, rules []sched.Rule, useStub bool, spec ucih.EngineSpec, dly int) {
 		c := sched.New(r.Int63())
 		c.Delay, c.MaxUs = dly, *maxus
+		c.Keep = 80
 		for i := range rules {
 			rr := rules[i]
 			c.Rules = append(c.Rules, &rr)
@@ -369,7 +389,7 @@ func ucisched(args []string) {
 			}
 		}
 		for _, st := range steps {
-			if st.Kind != "stall" && st.Kind != "rawcmd" {
+			if st.Kind != "stall" && st.Kind != "stall-until" && st.Kind != "rawcmd" {
 				flushOut()
 			}
 			switch st.Kind {
@@ -404,6 +424,10 @@ func ucisched(args []string) {
 				time.Sleep(time.Duration(st.D) * time.Millisecond)
 			case "stall": // the GUI does not read the engine's output for a while
 				time.Sleep(time.Duration(st.D) * time.Millisecond)
+				continue
+			case "stall-until": // ... until the named point has been reached K times (at most D ms)
+				c.WaitCount(st.Arg, st.K, time.Duration(st.D)*time.Millisecond)
+				time.Sleep(20 * time.Millisecond)
 				continue
 			case "auto": // the stub search completes its iterations by itself up to this depth
 				if stub != nil {
@@ -452,10 +476,10 @@ func ucisched(args []string) {
 			fw := c.Count("uci.fwd.start") - c.Count("uci.fwd.exit")
 			comp := c.Count("uci.complete.try") - c.Count("uci.complete.done")
 			if loopDone && running == parked && comp == 0 && (fw == 0 || running > 0) {
-				n0 := len(c.Events())
+				n0 := c.Total()
 				time.Sleep(3 * time.Millisecond)
 				flushOut()
-				if len(c.Events()) == n0 {
+				if c.Total() == n0 {
 					quiet = true
 					break
 				}
@@ -500,7 +524,7 @@ func ucisched(args []string) {
 
 	switch *mode {
 	case "directed":
-		for _, d := range directedScenarios() {
+		for _, d := range directedAll() {
 			if *only == "list" {
 				fmt.Println(d.name)
 				continue
